@@ -1068,7 +1068,8 @@ func c13DirkRefreshUnits(tier string) []hx.Unit {
 						}
 						for _, e := range []phase0.Epoch{1, 2, 3} {
 							got, err := svc.ValidatingAccountsForEpoch(ctx, e)
-							for i, acc := range got {
+							for _, i := range keysSorted(got) {
+								acc := got[i]
 								if ca, _ := acc.(*c13Account); ca == nil || !after[ca.wallet+"/"+ca.name] {
 									st.bad("C13/refresh/dirk-unknown-account-validating", "ValidatingAccountsForEpoch(%d) reports under index %d an account that is not known %s", e, i, where)
 								}
@@ -1085,7 +1086,8 @@ func c13DirkRefreshUnits(tier string) []hx.Unit {
 							for qi, q := range []func(context.Context, phase0.Epoch, []phase0.ValidatorIndex) (map[phase0.ValidatorIndex]e2wtypes.Account, error){svc.ValidatingAccountsForEpochByIndex, svc.SyncCommitteeAccountsForEpochByIndex} {
 								name := []string{"ValidatingAccountsForEpochByIndex", "SyncCommitteeAccountsForEpochByIndex"}[qi]
 								gotI, errI := q(ctx, e, allIdx)
-								for i, acc := range gotI {
+								for _, i := range keysSorted(gotI) {
+									acc := gotI[i]
 									if ca, _ := acc.(*c13Account); ca == nil || !after[ca.wallet+"/"+ca.name] {
 										st.bad("C13/refresh/dirk-unknown-account-by-index", "%s(%d, all indices) reports under index %d an account that is not known (or no account at all) %s", name, e, i, where)
 									}
@@ -1198,22 +1200,22 @@ func c13WalletRefreshUnits(tier string) []hx.Unit {
 							if errD != nil || errI != nil {
 								continue
 							}
-							for i, acc := range d {
-								if !isHeld(acc) {
+							for _, i := range keysSorted(d) {
+								if acc := d[i]; !isHeld(acc) {
 									st.bad("C13/refresh/wallet-unknown-account", "%s(%d) reports under index %d an account the manager does not hold (or no account) %s", qq.name, e, i, where)
 								}
 							}
-							for i, acc := range bi {
-								if !isHeld(acc) {
+							for _, i := range keysSorted(bi) {
+								if acc := bi[i]; !isHeld(acc) {
 									st.bad("C13/refresh/wallet-unknown-account-by-index", "%sByIndex(%d, all indices) reports under index %d an account the manager does not hold (or no account) %s", qq.name, e, i, where)
 								}
 							}
-							for i := range d {
+							for _, i := range keysSorted(d) {
 								if _, ok := bi[i]; !ok {
 									st.bad("C13/refresh/wallet-by-index-differs", "%sByIndex(%d, all indices) lacks index %d, which %s(%d) reports, %s", qq.name, e, i, qq.name, e, where)
 								}
 							}
-							for i := range bi {
+							for _, i := range keysSorted(bi) {
 								if _, ok := d[i]; !ok {
 									st.bad("C13/refresh/wallet-by-index-differs", "%sByIndex(%d, all indices) reports index %d, which %s(%d) does not, %s", qq.name, e, i, qq.name, e, where)
 								}
